@@ -145,7 +145,42 @@ func calleeLabel(call ssa.CallInstruction) string {
 }
 
 func mustCalls(fn *ssa.Function) (atExit Facts, res *FlowResult) {
+	return mustCallsGuarded(fn, "")
+}
+
+// mustCallsGuarded: like mustCalls, with the idempotence early-exit of fn taken out: the edge on which the call
+// <guard> (field.Method) says "already done" - IsSet()/Load() true, CompareAndSwap false - is infeasible for the
+// purpose of the must-analysis, whether the function returns at once behind it or skips a block and falls through
+// to a shared return (`if ok { cancel; close }`).
+func mustCallsGuarded(fn *ssa.Function, guard string) (atExit Facts, res *FlowResult) {
 	fl := &Flow{Must: true, Entry: Facts{}}
+	if guard != "" {
+		fl.Edge = func(from *ssa.BasicBlock, k int, f Facts) {
+			iff, ok := from.Instrs[len(from.Instrs)-1].(*ssa.If)
+			if !ok || from.Succs[0] == from.Succs[1] {
+				return
+			}
+			cv, truth := iff.Cond, k == 0
+			for {
+				un, isNot := cv.(*ssa.UnOp)
+				if !isNot || un.Op != token.NOT {
+					break
+				}
+				cv, truth = un.X, !truth
+			}
+			call, isCall := cv.(*ssa.Call)
+			if !isCall || calleeLabel(call) != guard {
+				return
+			}
+			done := truth
+			if strings.HasSuffix(guard, "CompareAndSwap") {
+				done = !truth
+			}
+			if done {
+				f["BOT"] = true
+			}
+		}
+	}
 	fl.Transfer = func(i ssa.Instruction, f Facts) {
 		if call, ok := i.(ssa.CallInstruction); ok {
 			if l := calleeLabel(call); l != "" {
@@ -216,7 +251,7 @@ func runR09_2(c *Ctx, r *R) {
 		if f == nil {
 			continue
 		}
-		_, res := mustCalls(f)
+		_, res := mustCallsGuarded(f, sp.guard)
 		// facts at each return; returns directly behind the idempotence guard may skip
 		for _, need := range sp.need {
 			key := fmt.Sprintf("%s/must-call:%s", fnKey(f), need)
@@ -227,7 +262,7 @@ func runR09_2(c *Ctx, r *R) {
 					continue
 				}
 				fa := res.At(ret)
-				if fa == nil {
+				if fa == nil || fa["BOT"] {
 					continue
 				}
 				if sp.guard != "" && returnBehindGuard(ret, sp.guard) {
